@@ -43,11 +43,11 @@ def names_file(stderr, path, root):
     return False
 
 
-def run_once(root, files, patches, lines, cfg, threads, policy, log, fault=None, short=None):
+def run_once(root, files, patches, lines, cfg, threads, policy, log, fault=None, short=None, readdir=None):
     ws.make_ws(root, files, patches, lines)
     if os.path.exists(log):
         os.unlink(log)
-    env = fsmon.env(log, fail_at=fault[0] if fault else None, errno_=fault[1] if fault else None, short_at=short)
+    env = fsmon.env(log, fail_at=fault[0] if fault else None, errno_=fault[1] if fault else None, short_at=short, readdir_at=readdir)
     if policy:
         env['RQ_VERIF_POLICY'] = policy
     o = ws.run_rq(root, wsweep.cfg_args(cfg), threads=threads, preload_env=env)
@@ -101,6 +101,25 @@ def case(task):
                     want = exp['model'].files() if kp == exp['k'] else exp['pre'][kp][1].files()
                 if want is None or ws.tree_of(snap) != want:
                     out['violations'].append((tags, 'recorded-as-applied-although-not-on-disk', wit(k, eno, {'expected': 'no patch recorded whose files were not all written', 'observed': applied, 'call': '%s %s' % (fop, fpath)})))
+    # a directory that may have become empty is listed before it is removed: a listing that fails is not "there is something in it"
+    nread = sum(1 for e in log0 if e[0] is None and e[1] == 'readdir')
+    for k in range(1, nread + 1):
+        o, snap, lg = run_once(root, files, patches, lines, cfg, threads, policy, log, readdir=k)
+        out['evals'] += 1
+        fired = [e for e in lg if e[3]]
+        if not fired:
+            out['outcomes']['fault-not-reached'] = out['outcomes'].get('fault-not-reached', 0) + 1
+            continue
+        fpath = fired[0][2]
+        out['nontrivial'] += 1
+        tags = wsweep.cls(base_tags | {'fault:readdir-tree'})
+        out['outcomes']['readdir:%s' % o.cls] = out['outcomes'].get('readdir:%s' % o.cls, 0) + 1
+        if o.cls not in ('0', '1'):
+            out['violations'].append((tags, o.cls, wit(k, errno.EIO, {'readdir_fault_at': k, 'expected': 'a clean non-zero exit', 'observed': o.cls, 'call': 'readdir %s' % fpath, 'stderr': common.b2s(o.err[-300:])})))
+        elif o.cls == '0':
+            out['violations'].append((tags, 'reported-as-success', wit(k, errno.EIO, {'readdir_fault_at': k, 'expected': 'non-zero exit status', 'observed': 'exit 0', 'call': 'readdir %s' % fpath})))
+        elif not names_file(o.err, fpath, os.path.normpath(root)):
+            out['violations'].append((tags, 'message-does-not-name-the-file', wit(k, errno.EIO, {'readdir_fault_at': k, 'expected': 'a message naming %s' % os.path.relpath(fpath, os.path.normpath(root)), 'observed': common.b2s(o.err[-300:]), 'call': 'readdir %s' % fpath})))
     if with_short:
         for (k, op, path, _) in mut:
             if op != 'write':
@@ -111,6 +130,37 @@ def case(task):
             got = (o.cls, ws.tree_of(snap), ws.pc_of(snap), ws.rejects_of(snap))
             if got != ref:
                 out['violations'].append((wsweep.cls(base_tags | {'short-write'}), 'short-write-changes-the-outcome', wit(k, 0, {'short_write_at': k, 'expected': 'same outcome as without the short write', 'observed': 'exit %s' % o.cls, 'call': 'write ' + path})))
+    return out
+
+
+def fsize_case(task):
+    """`ulimit -f` smaller than a file that is written: that is a write that fails, not a reason to die of a signal"""
+    which, threads, backup = task
+    d = wsweep.wdir()
+    root = os.path.join(d, 'ws')
+    big = b''.join(b'line %d\n' % i for i in range(400))      # 3.3 kB
+    small = b's0\ns1\ns2\n'
+    files = {'big': (big, 0o644), 'small': (small, 0o644)}
+    p_small = b'--- a/small\n+++ b/small\n@@ -1,3 +1,3 @@\n s0\n-s1\n+S1\n s2\n'
+    p_big = b'--- a/big\n+++ b/big\n@@ -1,3 +1,3 @@\n line 0\n-line 1\n+LINE 1\n line 2\n'
+    p_bigfail = b'--- a/big\n+++ b/big\n' + b'@@ -1,400 +1,400 @@\n' + b''.join(b'-nope %d\n' % i for i in range(400)) + b''.join(b'+x %d\n' % i for i in range(400))
+    patches = {'p0.patch': p_small, 'p1.patch': {'tree': p_big, 'backup': p_big, 'reject': p_bigfail}[which]}
+    ws.make_ws(root, files, patches, ['p0.patch', 'p1.patch'])
+    o = ws.run_rq(root, ['-a', '-q', '--backup', backup], threads=threads, fsize_limit=1024)
+    snap = ws.snapshot(root)
+    out = {'evals': 1, 'violations': [], 'outcomes': {'fsize:%s:%s' % (which, o.cls): 1}, 'nontrivial': 1, 'calls': 0}
+    tags = wsweep.cls({'file-size-limit', 'too-big:' + which, 'backup=' + backup, 'threads>1' if threads > 1 else 'threads=1'})
+    w = {'kind': 'generated', 'how': 'files big (400 lines, 3.3 kB) and small; p0 edits small, p1 %s; RLIMIT_FSIZE = 1024 bytes (ulimit -f 1)' % {'tree': 'edits big', 'backup': 'edits big (its backup is as big)', 'reject': 'has a 400-line hunk for big that fails (the reject is bigger than the limit)'}[which],
+         'args': ['-a', '-q', '--backup', backup], 'threads': threads}
+    name = {'tree': 'big', 'backup': 'big', 'reject': 'big.rej'}[which]
+    if o.cls not in ('0', '1'):
+        out['violations'].append((tags, o.cls, dict(w, expected='a clean non-zero exit', observed=o.cls, stderr=common.b2s(o.err[-300:]))))
+    elif o.cls == '0':
+        out['violations'].append((tags, 'reported-as-success', dict(w, expected='non-zero exit status', observed='exit 0')))
+    elif name.encode() not in o.err:
+        out['violations'].append((tags, 'message-does-not-name-the-file', dict(w, expected='a message naming %s' % name, observed=common.b2s(o.err[-300:]))))
+    if which != 'reject' and 'p1.patch' in ws.applied_of(snap):
+        out['violations'].append((tags, 'recorded-as-applied-although-not-on-disk', dict(w, expected='p1.patch not recorded', observed=ws.applied_of(snap))))
     return out
 
 
@@ -160,6 +210,12 @@ def run(tier, seed):
             r['sample'] = {'series': tq.describe_series(tasks[i][1]), 'driver': tasks[i][3][0], 'backup': tasks[i][2]['backup'], 'mutating_calls': r['calls'], 'outcomes': r['outcomes']}
         acc.add(r)
     acc.finish('fault_sweep')
+    accf = wsweep.Acc(res)
+    for r in wsweep.pmap(fsize_case, [(w, t, b) for w in ('tree', 'backup', 'reject') for t in (1, 2) for b in ('always', 'never') if not (w == 'backup' and b == 'never')]):
+        accf.add(r)
+    accf.finish('file_size_limit')
+    res.coverage['file_size_limit']['rule'] = ('RLIMIT_FSIZE of 1024 bytes and a changed file / its backup / a reject file of 3 kB and more, behind a patch that goes through, x threads {1,2} x backups: '
+                                               'exit 1 with a message naming the file - not death by SIGXFSZ -, the patch not recorded')
     cov = res.coverage
     cov['workloads'] = len(W)
     cov['configurations'] = len(tasks)
@@ -168,7 +224,7 @@ def run(tier, seed):
                    'combination of kinds with two deviations or three file patches: success and failing pushes, creates, deletes, renames, mode changes, '
                    'rejects) x --backup {always,never} x driver {sequential, parallel with the serial schedule lowest-worker-first, highest-worker-first}: a fault-free run counts the n mutating libc calls '
                    '(open for writing, write, unlink, mkdir, rmdir, fchmod, ...), then one run per k in 1..n and per applicable errno (EIO; ENOSPC for write/mkdir/open; EACCES for open/unlink) with exactly '
-                   'that call failing; short writes at every write for a quarter (thorough: an eighth, of twenty times as many) of the workloads. Oracle when the fault fired: exit class non-zero and not a crash; stderr names the failing '
+                   'that call failing; likewise every reading of a directory entry while emptied directories are looked at (EIO); short writes at every write for a quarter (thorough: an eighth, of twenty times as many) of the workloads. Oracle when the fault fired: exit class non-zero and not a crash; stderr names the failing '
                    'path (any trailing part of it); nothing is appended to applied-patches unless the tree equals the model after exactly those patches; a short write changes nothing. '
                    'distinct_nontrivial = runs in which the injected fault was reached')
     res.assumptions = ['faults are injected at the libc boundary of the dynamically linked binary', 'parallel runs are serialised by the cooperative scheduler so that "the k-th call" is reproducible']
